@@ -945,4 +945,47 @@ theorem parseToks_truncated {toks : List Token} {eofPos pos : Nat} {b : Bool} {l
     simp only [Except.error.injEq, PErr.syntax.injEq] at g
     omega
 
+/-! ### the same two theorems for any action started on a fresh state (used for `parser.ParseValue`) -/
+
+theorem action_error_local {α} (m : P α) [hm : ∀ B', Loc2 B' m m] [em : ErrAt m] {toks : List Token} {eofPos pos : Nat} {b : Bool} {l : Nat}
+    (h : m (initState toks eofPos) = .error (.syntax pos b l)) (hl : 0 < l) (rest : List Token) (eofPos' : Nat) :
+    ∃ l', m (initState (toks.take (toks.length - l + 1) ++ rest) eofPos') = .error (.syntax pos b l') ∧
+      (toks.take (toks.length - l + 1) ++ rest).length - l' = toks.length - l ∧
+      l' ≤ (toks.take (toks.length - l + 1) ++ rest).length := by
+  have hle : l ≤ toks.length := (em.err _ _ _ _ h).1
+  let k := toks.length - l
+  have hk : k + 1 ≤ toks.length := by show toks.length - l + 1 ≤ toks.length; omega
+  have hA : Agree (k + 1) (initState toks eofPos) (initState (toks.take (k + 1) ++ rest) eofPos') := by
+    refine ⟨rfl, rfl, hk, ?_, ?_⟩
+    · simp [initState]; omega
+    · simp only [initState]
+      rw [List.take_append_of_le_length (by simp; omega), List.take_take]
+      simp
+  exact (hm (toks.take (k + 1) ++ rest).length).err
+    (initState toks eofPos) (initState (toks.take (k + 1) ++ rest) eofPos') (k + 1) pos b l (Nat.le_refl _) hA h
+    (by show toks.length - l + 1 ≤ k + 1; omega)
+
+theorem action_truncated {α} (m : P α) [hm : ∀ B', Loc2 B' m m] [em : ErrAt m] {toks : List Token} {eofPos pos : Nat} {b : Bool} {l : Nat}
+    (h : m (initState toks eofPos) = .error (.syntax pos b l)) (eofPos' pos' : Nat) (b' : Bool) (l' : Nat)
+    (h' : m (initState (toks.take (toks.length - l)) eofPos') = .error (.syntax pos' b' l')) : l' = 0 := by
+  have hle : l ≤ toks.length := (em.err _ _ _ _ h).1
+  cases l' with
+  | zero => rfl
+  | succ j =>
+    exfalso
+    let T := toks.take (toks.length - l)
+    have hT : T.length = toks.length - l := by simp [T]
+    obtain ⟨l'', g, hidx, hl''⟩ := action_error_local m (toks := T) h' (Nat.succ_pos j) (toks.drop (T.length - (j + 1) + 1)) eofPos
+    have hm' : j + 1 ≤ T.length := (em.err _ _ _ _ h').1
+    have hlist : T.take (T.length - (j + 1) + 1) ++ toks.drop (T.length - (j + 1) + 1) = toks := by
+      have hle2 : T.length - (j + 1) + 1 ≤ toks.length - l := by omega
+      have : T.take (T.length - (j + 1) + 1) = toks.take (T.length - (j + 1) + 1) := by
+        show (toks.take (toks.length - l)).take (T.length - (j + 1) + 1) = _
+        rw [List.take_take, Nat.min_eq_left hle2]
+      rw [this, List.take_append_drop]
+    rw [hlist] at g hidx hl''
+    rw [h] at g
+    simp only [Except.error.injEq, PErr.syntax.injEq] at g
+    omega
+
 end GqlModel.Parser
